@@ -20,7 +20,8 @@ RULE = ("schedules of whole operations (start, try_send / send_blocking from pro
         "request_stop, graph stop) against a real push source of capacity 0 (unbounded), 1, 2 or 3 with policy queue, "
         "burst or conflating; sends run on their own threads, a send_blocking at capacity stays parked until a cycle "
         "or the stop releases it (at most one parked sender at a time); thorough adds every order of 2 producers x 2 "
-        "messages x 4 cycles for capacities 0,1,2. A case is non-trivial when values of >= 2 producers were delivered, "
+        "messages x 4 cycles for capacities 0,1,2; a second, monitor-only stream runs 2-6 REAL producer threads against the "
+        "real run loop (no hooks, OS-chosen interleavings). A case is non-trivial when values of >= 2 producers were delivered, "
         "or a sender parked, or a send was refused at capacity; distinct by sha1 of the case text")
 TRUSTED = [
     "C++ memory model, std::mutex / condition_variable semantics, thread scheduling: the harness executes the "
@@ -140,7 +141,15 @@ def streams(rng, tier, seed):
     if os.path.isdir(cdir):
         for f in sorted(os.listdir(cdir)):
             corpus.append(Case([l.rstrip("\n") for l in open(os.path.join(cdir, f)) if l.strip()], {"kind": "corpus"}))
-    return [Stream("push", [os.path.join(BUILD, "hgv_push")], model_cmd("C16"), corpus + cases, timeout=1800)]
+    # real threads against the real run loop (no hooks, no model: monitor only)
+    stress = []
+    for i in range(24 if q else 300):
+        stress.append(Case(["case %d" % (100000 + i),
+                            "stress %d %d %d %d" % (rng.choice([2, 3, 4, 6]), rng.choice([20, 100, 400]),
+                                                    rng.choice([0, 1, 1, 2, 3, 16]), rng.choice([0, 1, 2]))],
+                           {"kind": "threads"}))
+    return [Stream("push", [os.path.join(BUILD, "hgv_push")], model_cmd("C16"), corpus + cases, timeout=1800),
+            Stream("push-threads", [os.path.join(BUILD, "hgv_push")], None, stress, timeout=1800)]
 
 
 # ---------------------------------------------------------------- monitor
@@ -156,7 +165,39 @@ def _vals(txt):
     return [int(txt)]
 
 
+def _analyse_stress(case, out):
+    bad, feats = [], {"kind-threads"}
+    line = next((o for l, o in zip(case.lines, out) if l.startswith("stress")), None)
+    if not line or not line.startswith("stress "):
+        return ["[trace] no stress output: %r" % (line,)], feats
+    kv = dict(x.split("=", 1) for x in line.split()[1:] if "=" in x)
+    try:
+        sent, failed, delivered = int(kv["sent"]), int(kv["failed"]), int(kv["delivered"])
+        cap, maxpend = int(kv["cap"]), int(kv["maxpend"])
+    except Exception:
+        return ["[trace] unreadable stress output %r" % line[:100]], feats
+    if "run_error" in kv:
+        bad.append("[trace] run() threw: " + kv["run_error"][:80])
+    if failed:
+        bad.append("[blocking] %d send(s) failed although the source never stopped" % failed)
+    if kv["timeout"] == "1" or delivered != sent:
+        bad.append("[lost] %d of %d accepted values delivered with the run still going (concurrent producers)" % (delivered, sent))
+    if int(kv["dup"]):
+        bad.append("[once] %s value(s) delivered twice (concurrent producers)" % kv["dup"])
+    if int(kv["order_bad"]):
+        bad.append("[prefix] a producer's own order was not preserved (%s places)" % kv["order_bad"])
+    if int(kv["time_bad"]):
+        bad.append("[once] delivery times not strictly increasing (%s places)" % kv["time_bad"])
+    if cap > 0 and maxpend > cap:
+        bad.append("[cap] %d values pending with capacity %d (concurrent producers)" % (maxpend, cap))
+    feats.add("threads-cap-%d" % cap)
+    feats.add("threads-refused-" + kv.get("refused", "?"))
+    return bad, feats
+
+
 def _analyse(case, out):
+    if case.meta.get("kind") == "threads" or any(l.startswith("stress") for l in case.lines):
+        return _analyse_stress(case, out)
     bad, feats = [], set()
     cap, policy, line = None, None, None
     for ln, o in zip(case.lines, out):
@@ -321,4 +362,4 @@ def features(stream, case, out):
 
 def nontrivial(stream, case, out):
     f = _analyse(case, out)[1]
-    return bool(f & {"multi-producer-delivery", "sender-parked", "refused-full"})
+    return bool(f & {"multi-producer-delivery", "sender-parked", "refused-full", "kind-threads"})
